@@ -383,9 +383,60 @@ def sweep_units(tier, i, n):
     return K, mine
 
 
+# ---------------------------------------------------------------------------------------------------------------------
+# Part 3b: content twins - two objects of one class that differ in content must not share an identifier.  The family is
+# finite and written out: neighbouring scalar fields whose texts can be split differently ("ab"+"c" / "a"+"bc",
+# 1|234 / 12|34), None against the text "None", a value moved from one field to its neighbour
+# ---------------------------------------------------------------------------------------------------------------------
+def content_twins():
+    from inscripta.biocantor.gene.variants import VariantInterval
+    from inscripta.biocantor.gene.feature import FeatureInterval
+    from inscripta.biocantor.gene.transcript import TranscriptInterval
+    from inscripta.biocantor.gene.gene import GeneInterval
+    from inscripta.biocantor.location.strand import Strand
+
+    P = Strand.PLUS
+    tw = []
+
+    def add(name, mk, fa, fb):
+        tw.append((name, mk, fa, fb))
+
+    for (s1, e1), (s2, e2) in (((1, 234), (12, 34)), ((1, 23), (12, 3 + 10)), ((2, 345), (23, 45)), ((10, 112), (101, 12 + 100))):
+        add(f"variant-start-end:{s1},{e1}/{s2},{e2}", lambda s, e: VariantInterval(s, e, "A", "SNV"), (s1, e1), (s2, e2))
+    for fa, fb in ((("AC", "GT"), ("A", "CGT")), (("A", "CSNV"), ("AC", "SNV"))):
+        add(f"variant-alt-type:{fa}/{fb}", lambda a, t: VariantInterval(3, 4, a, t), fa, fb)
+    for fa, fb in ((("ab", "c"), ("a", "bc")), (("x", None), ("xNone", None)), ((None, "x"), ("None", "x")), (("n1", "2"), ("n", "12"))):
+        add(f"feature-name-id:{fa}/{fb}", lambda nm, fid: FeatureInterval([1], [5], P, feature_name=nm, feature_id=fid), fa, fb)
+        add(f"transcript-id-symbol:{fa}/{fb}", lambda tid, sym: TranscriptInterval([1], [5], P, transcript_id=tid, transcript_symbol=sym), fa, fb)
+        add(f"gene-id-symbol:{fa}/{fb}", lambda gid, sym: GeneInterval([TranscriptInterval([1], [5], P)], gene_id=gid, gene_symbol=sym), fa, fb)
+    return tw
+
+
+def check_twins(res, only=None):
+    for name, mk, fa, fb in content_twins():
+        if only is not None and name != only:
+            continue
+        oa, ob = lib.outcome(mk, *fa), lib.outcome(mk, *fb)
+        res.trans()
+        res.state(("twin", name))
+        res.nontriv(("twin", name))
+        if oa[0] != "ok" or ob[0] != "ok":
+            res.note("twins", "refused")
+            continue
+        same_text = "".join(str(x) for x in fa) == "".join(str(x) for x in fb)
+        if oa[1].guid == ob[1].guid:
+            res.note("twins", "same-identifier")
+            res.deviation("guid", {"part": "twins", "twin": name}, str(oa[1].guid), "different identifiers for different content", sig="twins-same-guid:" + name.split(":")[0],
+                          fields=[list(map(str, fa)), list(map(str, fb))], same_concatenated_text=same_text)
+        else:
+            res.note("twins", "different-identifiers")
+
+
 def run_shard(shard):
     res = ShardResult()
     tier, i, n = shard["tier"], shard["i"], shard["n"]
+    if i == 0:
+        check_twins(res)
     corpus = W.corpus(tier)
     specs = [s for idx, s in enumerate(corpus) if idx % n == i]
     me = os.environ.get("PYTHONHASHSEED", "random")
@@ -422,6 +473,9 @@ def replay(case):
         return [d for d in res.deviations if d["case"]["chain"] == case["chain"]]
     if part == "edit":
         check_sensitivity(res, case["spec"], only_edit=case["edit"])
+        return res.deviations
+    if part == "twins":
+        check_twins(res, only=case["twin"])
         return res.deviations
     if part == "seed":
         sweep = Sweep([case["seed"]], {"specs": [case["spec"]], "perms": [], "menu": False, "full": True})
@@ -571,7 +625,13 @@ def m_live_dump(d):
     return d.get("n_children", 0) > 0
 
 
+def m_digest_concatenation(d):
+    """two contents whose differing neighbouring fields spell the same text when written one after the other"""
+    return d["sig"].startswith("twins-same-guid:") and d.get("same_concatenated_text") is True
+
+
 MATCHERS = {
+    "c08_digest_concatenation": m_digest_concatenation,
     "c08_pickle_interval": m_pickle_interval,
     "c08_ac_disjoint_chunk": m_ac_disjoint_chunk,
 }
